@@ -604,6 +604,25 @@ namespace sim
     w.EndObject();
     w.Key("tsan");
     w.Uint(r.tsan_reports);
+    // deviations from "continue the current task" (pairs step, task): a schedule as an explicit script
+    w.Key("dev");
+    w.StartArray();
+    for (uint32_t i = 0; i < r.sched.n_dev && i < 20000 && r.sched.dev != nullptr; ++i)
+      {
+        w.Uint(r.sched_dev.size() > 2 * i + 1 ? r.sched_dev[2 * i] : 0);
+        w.Uint(r.sched_dev.size() > 2 * i + 1 ? r.sched_dev[2 * i + 1] : 0);
+      }
+    w.EndArray();
+    w.Key("tool_dev");
+    w.StartArray();
+    for (const auto &x : r.resp)
+      {
+        w.StartArray();
+        for (auto d : x.sched_dev)
+          w.Uint(d);
+        w.EndArray();
+      }
+    w.EndArray();
     w.Key("tool_traces");
     w.StartArray();
     for (const auto &x : r.resp)
